@@ -138,6 +138,17 @@ func ReceivePack(
 		return err
 	}
 
+	// Outcomes are kept and reported per reference name, so a request may
+	// name a reference only once (canonical Git: "multiple updates for ref
+	// not allowed").
+	seen := make(map[plumbing.ReferenceName]struct{}, len(updreq.Commands))
+	for _, cmd := range updreq.Commands {
+		if _, dup := seen[cmd.Name]; dup {
+			return fmt.Errorf("multiple updates for ref %q not allowed", cmd.Name)
+		}
+		seen[cmd.Name] = struct{}{}
+	}
+
 	var (
 		caps         = updreq.Capabilities
 		needPackfile bool
